@@ -25,7 +25,81 @@ pub trait Reg: Any {
     /// `==` as derived by `#[derive(PartialEq)]` on the bitfield struct
     fn same(&self, other: &dyn Reg) -> bool;
     fn as_any(&self) -> &dyn Any;
+    /// Operator traits the macro under test may or may not implement for the generated type
+    /// (`!x`, `x & y`, `x | y`, `x ^ y`): Some(result) if the operator exists, None if not.
+    /// The pinned macro implements none of them; a macro that adds them adds operations, and C11
+    /// quantifies over any sequence of operations.
+    fn operator(&self, op: u8, other: Option<&dyn Reg>) -> Option<Box<dyn Reg>>;
 }
+
+pub const OP_NOT: u8 = 0;
+pub const OP_AND: u8 = 1;
+pub const OP_OR: u8 = 2;
+pub const OP_XOR: u8 = 3;
+
+/// Autoref specialisation: `(&Probe(x)).try_not()` resolves to the bounded impl on `Probe<X>` if
+/// `X: Not<Output = X>` holds and to the fallback on `&Probe<X>` (which returns None) otherwise.
+pub struct Probe<X>(pub X);
+
+pub trait ViaNot<X> {
+    fn try_not(&self) -> Option<X>;
+}
+impl<X: Copy + core::ops::Not<Output = X>> ViaNot<X> for Probe<X> {
+    fn try_not(&self) -> Option<X> {
+        Some(!self.0)
+    }
+}
+pub trait ViaNoNot<X> {
+    fn try_not(&self) -> Option<X> {
+        None
+    }
+}
+impl<X> ViaNoNot<X> for &Probe<X> {}
+
+pub trait ViaAnd<X> {
+    fn try_and(&self, o: X) -> Option<X>;
+}
+impl<X: Copy + core::ops::BitAnd<Output = X>> ViaAnd<X> for Probe<X> {
+    fn try_and(&self, o: X) -> Option<X> {
+        Some(self.0 & o)
+    }
+}
+pub trait ViaNoAnd<X> {
+    fn try_and(&self, _o: X) -> Option<X> {
+        None
+    }
+}
+impl<X> ViaNoAnd<X> for &Probe<X> {}
+
+pub trait ViaOr<X> {
+    fn try_or(&self, o: X) -> Option<X>;
+}
+impl<X: Copy + core::ops::BitOr<Output = X>> ViaOr<X> for Probe<X> {
+    fn try_or(&self, o: X) -> Option<X> {
+        Some(self.0 | o)
+    }
+}
+pub trait ViaNoOr<X> {
+    fn try_or(&self, _o: X) -> Option<X> {
+        None
+    }
+}
+impl<X> ViaNoOr<X> for &Probe<X> {}
+
+pub trait ViaXor<X> {
+    fn try_xor(&self, o: X) -> Option<X>;
+}
+impl<X: Copy + core::ops::BitXor<Output = X>> ViaXor<X> for Probe<X> {
+    fn try_xor(&self, o: X) -> Option<X> {
+        Some(self.0 ^ o)
+    }
+}
+pub trait ViaNoXor<X> {
+    fn try_xor(&self, _o: X) -> Option<X> {
+        None
+    }
+}
+impl<X> ViaNoXor<X> for &Probe<X> {}
 
 /// Which pre-made value to start from.
 pub const SPECIAL_ZERO: u8 = 0;
